@@ -200,16 +200,49 @@ class Report:
         return EXIT_OK
 
 
+class TaskTimeout(BaseException):
+    pass
+
+
+TASK_LIMIT_S = [150]
+
+
+def _on_alarm(signum, frame):
+    raise TaskTimeout()
+
+
 def _guard(args):
+    import signal
     fn, task = args
+    t0 = time.time()
+    try:
+        signal.signal(signal.SIGALRM, _on_alarm)
+        signal.setitimer(signal.ITIMER_REAL, TASK_LIMIT_S[0])
+    except (ValueError, AttributeError):
+        pass
     try:
         return fn(task)
+    except TaskTimeout:
+        return {'inconclusive': ['task %r stopped after %.0f s (time bound of the tier)' % (_short(task), time.time() - t0)],
+                'timeouts': 1}
     except BaseException as e:       # noqa
-        return {'harness_errors': ['%r: %s\n%s' % (task, e, traceback.format_exc()[-1500:])]}
+        return {'harness_errors': ['%r: %s\n%s' % (_short(task), e, traceback.format_exc()[-1500:])]}
+    finally:
+        try:
+            signal.setitimer(signal.ITIMER_REAL, 0)
+        except (ValueError, AttributeError):
+            pass
 
 
-def run_pool(fn, tasks, procs=None):
+def _short(task):
+    s = repr(task)
+    return s if len(s) < 200 else s[:200] + '...' 
+
+
+def run_pool(fn, tasks, procs=None, limit_s=None):
     """Run fn(task) for every task in a fork pool; yields results (dicts)."""
+    if limit_s:
+        TASK_LIMIT_S[0] = limit_s
     procs = procs or ncpu()
     tasks = list(tasks)
     if procs <= 1 or len(tasks) <= 1:
